@@ -49,6 +49,7 @@ type Check struct {
 	Replay    func(r map[string]any) // optional: re-execute a replay record, print, os.Exit(1) if it still fails
 	Post      func(agg *Agg, cov map[string]any) // optional: supervisor-side post-processing of coverage
 	Prepare   func() error                       // optional: supervisor-side preparation (e.g. build the CLI from /repo)
+	WorkerBin string                             // optional: binary to run workers with (default: this binary)
 }
 
 var checks = map[string]*Check{}
@@ -501,6 +502,7 @@ func checkMain(args []string) {
 			os.Exit(2)
 		}
 	}
+	workerBin = ck.WorkerBin
 	deadline := t0.Add(time.Duration(budget) * time.Second)
 	tmp, _ := os.MkdirTemp("", "vmc-"+id+"-")
 	defer os.RemoveAll(tmp)
@@ -749,9 +751,15 @@ type hangRec struct {
 // worker finished normally.
 var harnessErr atomic.Value // first unrecovered Go panic of a worker (= bug in the harness, never a violation)
 
+var workerBin = ""
+
 func runWorker(wargs []string, tmp string, onDelta func(*Agg), s *shardState) (int64, *hangRec, bool) {
 	pr, pw, _ := os.Pipe()
-	cmd := exec.Command(os.Args[0], wargs...)
+	bin := os.Args[0]
+	if workerBin != "" {
+		bin = workerBin
+	}
+	cmd := exec.Command(bin, wargs...)
 	cmd.Env = append(os.Environ(), "GOMAXPROCS=2", "GOTRACEBACK=single")
 	cmd.ExtraFiles = []*os.File{pw}
 	cmd.Stdout = nil
